@@ -1,8 +1,10 @@
 #!/usr/bin/env python3
 """Translator: regenerates coq/theories/Anchors.v from /repo's current source.
 Facts extracted: exit-code constants (src/exits.rs), LOG_LOCK_MAGIC / ALWAYS /
-SCHEMA_VER (src/state.rs), and every SQLite transaction site with its BEGIN
-mode.  The access pattern of a site (read-only / may write after reading /
+SCHEMA_VER / BUILD_LOCK_MAGIC (src/state.rs), every SQLite transaction site with
+its BEGIN mode, and the order of steps the protocol models assume (build lock
+taken before the start commit and held until the result is recorded; the walk
+probes it; no second cheat while in debt; the job's pipe before its token).  The access pattern of a site (read-only / may write after reading /
 writes first) is a table keyed by site, kept here; a site the table does not
 know makes the translation fail (a broken tie, not something to ignore)."""
 import os
@@ -171,6 +173,51 @@ def busy_immediate():
     return out
 
 
+def protocol_facts():
+    """Facts about the order of steps in the code that the protocol models assume
+    (Sched/BuildLock.v, Sched/Loop.v): each is read off the current source; a fact
+    that can no longer be read is a broken tie."""
+    out = []
+    st = read("src/state.rs")
+    m = re.search(r"const BUILD_LOCK_MAGIC: i64 = (0x[0-9a-fA-F]+|\d+);", st)
+    if not m:
+        raise Broken("src/state.rs: BUILD_LOCK_MAGIC not found")
+    bmagic = int(m.group(1), 0)
+    if not re.search(r"fn is_being_built\(&self, fid: i64\)[^{]*\{\s*self\.is_locked_now\(fid \+ BUILD_LOCK_MAGIC\)", st):
+        raise Broken("src/state.rs: is_being_built no longer probes fid + BUILD_LOCK_MAGIC")
+    b = strip_hooks(read("src/builder.rs"))
+    i_save = b.find("dof.save(&mut ptx)?;")
+    i_new = b.find("new_lock(sf.id() + state::BUILD_LOCK_MAGIC)")
+    i_try = b.find("build_lock.try_lock()?;")
+    i_commit = b.find("ptx.commit()", i_try if i_try >= 0 else 0)
+    i_job = b.find("server.start(", i_commit if i_commit >= 0 else 0)
+    taken_before_commit = 0 <= i_save < i_new < i_try < i_commit < i_job
+    # no other commit between taking the lock and the commit that starts the job
+    if taken_before_commit and "commit()" in b[i_try:i_commit]:
+        taken_before_commit = False
+    i_keep = b.find("let _build_lock = build_lock;")
+    i_await = b.find("job.await", i_keep if i_keep >= 0 else 0)
+    i_rec = b.find("BuildJob::record_new_state(", i_await if i_await >= 0 else 0)
+    i_commit2 = b.find("ptx.commit()", i_rec if i_rec >= 0 else 0)
+    held_until_recorded = 0 <= i_keep < i_await < i_rec < i_commit2 and "drop(_build_lock" not in b and "_build_lock.unlock" not in b
+    d = read("src/deps.rs")
+    m = re.search(r"DepMode::Modified\s*if f2\.is_generated\(\)\s*&& !already_checked\.contains\(&f2\.id\(\)\)\s*&& ptx\.state\(\)\.is_being_built\(f2\.id\(\)\)\? =>", d)
+    i_probe = m.start() if m else -1
+    i_rec_walk = d.find("private_is_dirty(\n", i_probe if i_probe >= 0 else 0)
+    if i_rec_walk < 0:
+        i_rec_walk = d.find("private_is_dirty(", (i_probe if i_probe >= 0 else 0) + 1)
+    probed_before_rows = 0 <= i_probe < i_rec_walk
+    j = read("src/jobserver.rs")
+    cheat_guard = bool(re.search(r"\(has_token, state\.cheats > 0\)", j) and re.search(r"if !has_token && !in_debt \{\s*let n = cheat_func\(\)\?;", j))
+    token_after_pipe = 0 <= j.find("let (r, w) = make_pipe(50)") < j.find("state.destroy_tokens(1);", j.find("pub(crate) fn start<F>"))
+    out.append(("build_lock_taken_before_start_commit", taken_before_commit))
+    out.append(("build_lock_held_until_result_recorded", held_until_recorded))
+    out.append(("walk_probes_build_lock_before_reading_rows", probed_before_rows))
+    out.append(("cheat_refused_while_in_debt", cheat_guard))
+    out.append(("job_pipe_made_before_token_destroyed", token_after_pipe))
+    return bmagic, out
+
+
 def coq_string(s):
     return '"' + s.replace('"', '""') + '"'
 
@@ -200,6 +247,11 @@ def generate():
     L.append("")
     L.append("(* statements for which SQLite answers SQLITE_BUSY at once (no busy timeout): site, retried by the code *)")
     L.append("Definition busy_immediate : list (string * bool) :=\n  [" + ";\n   ".join("(%s, %s)" % (coq_string(n), "true" if r else "false") for n, r in busy_immediate()) + "].")
+    bmagic, facts = protocol_facts()
+    L.append("")
+    L.append("(* the second lock per target and the order of steps the protocol models assume *)")
+    L.append("Definition build_lock_magic : Z := %d%%Z." % bmagic)
+    L.append("Definition protocol_facts : list (string * bool) :=\n  [" + ";\n   ".join("(%s, %s)" % (coq_string(n), "true" if r else "false") for n, r in facts) + "].")
     return "\n".join(L) + "\n"
 
 
